@@ -246,6 +246,8 @@ def _functions():
         ("islice($l, $n)", "(List.take {n} {l})"),
         ("enumerate($l, 1)", "(NP.enumFrom1 {l})"),
         ('np.can_cast($a, $b, casting="same_kind")', "(NP.canCastSameKind {a} {b})"),
+        # numpy's "safe": no narrowing within a kind either; in the two-kind model the same relation (Core/C11Src.lean)
+        ('np.can_cast($a, $b, casting="safe")', "(NP.canCastSafe {a} {b})"),
         ("np.promote_types($a, $b)", "(NP.promote {a} {b})"),
         ("$d.astype($t)", "(NP.TM.astype {d} {t})"),
     ]
